@@ -5480,10 +5480,17 @@ class Symbol:
             or (
                 type(value) is str  # values other than bool should be string
                 and (
-                    (self.orig_type == INT and _is_base_n(value, 10))  # valid int
-                    or self.orig_type == STRING  # valid string
-                    or (self.orig_type == HEX and _is_base_n(value, 16) and int(value, 16) >= 0)  # valid hex
-                    or (self.orig_type == FLOAT and is_float(value))  # valid float
+                    self.orig_type == STRING  # valid string
+                    or (
+                        # int()/float() also accept surrounding whitespace and digit-group underscores
+                        # ("1_0", " 7"), which are not numbers in any of the generated outputs
+                        not any(c == "_" or c.isspace() for c in value)
+                        and (
+                            (self.orig_type == INT and _is_base_n(value, 10))  # valid int
+                            or (self.orig_type == HEX and _is_base_n(value, 16) and int(value, 16) >= 0)  # valid hex
+                            or (self.orig_type == FLOAT and is_float(value))  # valid float
+                        )
+                    )
                 )
             )
         )
